@@ -23,11 +23,21 @@ func readRune(r io.Reader, remains []byte, b int) ([]rune, []byte, error) {
 		return rs, []byte{}, zerr.ReadFileError(err, " <buffer> ")
 	}
 
+	atEOF := err == io.EOF
 	buf := append(remains, p[:t]...)
 	for len(buf) > 0 {
+		// an incomplete character at the end of the block is kept for the next read -
+		// unless there is no more data to complete it
+		if !utf8.FullRune(buf) {
+			if atEOF {
+				return rs, buf, zerr.InvalidUTF8Encoding(" <buffer> ")
+			}
+			break
+		}
 		ru, size := utf8.DecodeRune(buf)
-		if ru == utf8.RuneError {
-			return rs, buf, nil
+		// (RuneError, 1) means an invalid byte; U+FFFD itself is decoded with size = 3
+		if ru == utf8.RuneError && size == 1 {
+			return rs, buf, zerr.InvalidUTF8Encoding(" <buffer> ")
 		}
 
 		rs = append(rs, ru)
